@@ -5,6 +5,9 @@ import json, os, subprocess, sys, time
 VERIF = os.path.dirname(os.path.dirname(os.path.abspath(__file__)))
 args = sys.argv[1:]
 props = None
+record = False
+if args and args[0] == '--record':
+    record = True; args = args[1:]
 if args and args[0] == '--props':
     props = args[1].split(','); args = args[2:]
 ids = args or sorted(d for d in os.listdir(f'{VERIF}/seeded') if os.path.isdir(f'{VERIF}/seeded/{d}'))
@@ -28,6 +31,19 @@ for sid in ids:
             lines = [l for l in c.stdout.splitlines() if l.startswith(('VIOLATION', 'PROOF-LOST', 'CHECKER-FAULT', 'KNOWN'))]
             rows.append((sid, p, f'exit={c.returncode}', ' | '.join(lines)[:300]))
             print(sid, p, f'exit={c.returncode}', f'{time.time()-t0:.0f}s', ' | '.join(lines)[:400], flush=True)
+            if record:
+                viol = [l.split('replay=')[1].split()[0].split('/')[-1].replace('.json', '') + (' (no-failing-input-found)' if l.rstrip().endswith('no-failing-input-found') else '')
+                        for l in lines if l.startswith('VIOLATION')]
+                lost = [l.split('contract=')[1].split()[0] for l in lines if l.startswith('PROOF-LOST')]
+                kind = lambda v: 'bounded stand-in' if ('.integration.' in v or '.standin' in v or v.split('.')[0].lower().startswith(('c06_', 'c11_', 'c14_', 'c16_', 'c17_'))) else 'contract obligation'
+                cb = meta.get('caught_by') if isinstance(meta.get('caught_by'), dict) else {}
+                cb[p] = {'check': f'./check {p} quick', 'exit': c.returncode, 'caught': c.returncode == 1,
+                         'violations': [{'obligation': v, 'by': kind(v)} for v in viol], 'proof_lost_contracts': lost,
+                         'faults': [l for l in lines if l.startswith('CHECKER-FAULT')]}
+                meta['caught_by'] = cb
+                json.dump(meta, open(f'{VERIF}/seeded/{sid}/meta.json', 'w'), indent=1)
     finally:
         subprocess.run(['git', '-C', '/repo', 'checkout', '--', '.'], check=True)
 assert subprocess.run(['git', '-C', '/repo', 'status', '--porcelain'], capture_output=True, text=True).stdout.strip() == ''
+# evidence files were rewritten by runs on changed trees: put the committed ones (unchanged tree) back
+subprocess.run(['git', '-C', VERIF, 'checkout', '--', 'evidence'], check=False)
